@@ -238,7 +238,7 @@ check("C19",
 
 check("C20",
       "TLA+ model of the process-wide reader state (spec/AmpSession.tla: shared particle set, class-attribute look-up of the "
-      "cartesian switch) model-checked with TLC for two designs; TLC-emitted histories executed in fresh interpreters and "
+      "cartesian switch) model-checked with TLC for four designs; TLC-emitted histories executed in fresh interpreters and "
       "compared with single fresh calls",
       "TLC checks HistoryIndependent over every history of <= 4 calls (3 reader classes x 6 files, one of them rejected after its "
       "option was applied, one naming a particle the special particle table overrides) for the per-read design and refutes the "
